@@ -2,8 +2,9 @@
 
 Decided: parameter columns in parameter_names order, one weight vector in every summary
 statistic, the warm-up slice / chain-major flattening of BOLFI samples, symmetry of the
-pickling state, the save dispatch.  Not decided: ESS / R-hat formulas, JSON / CSV round-trip
-values.
+pickling state, the save dispatch, the textbook form of split R-hat and ESS over the chain
+statistics (exact normal forms).  Not decided: their invariances for all inputs, the FFT
+autocovariance, JSON / CSV round-trip values.
 """
 
 import ast
@@ -239,3 +240,193 @@ obligation('C16-f', 'T6 T7 T5', 'the quantile helper behind the reported interva
            'and weights together (shared with C13-a)', floor=6,
            necessary='weights accumulated in stored order give intervals that depend on the '
                      'storage order of the sample')(_C13.c13_a)
+
+
+def _chain_atoms(C):
+    """Recognisers for the chain statistics over the (possibly split) chain matrix term C."""
+    from ..values import pattern as P
+
+    def kwd(t):
+        return dict(t[3]) if t[0] == 'call' else {}
+
+    def is_mean_axis1(t):
+        return t[0] == 'call' and t[1] == ('global', 'numpy.mean') and t[2] and t[2][0] == C and \
+            (kwd(t).get('axis') == ('const', 1) or (len(t[2]) > 1 and t[2][1] == ('const', 1)))
+
+    def is_var_axis1(t):
+        return t[0] == 'call' and t[1] == ('global', 'numpy.var') and t[2] and t[2][0] == C and \
+            kwd(t).get('axis') == ('const', 1) and kwd(t).get('ddof') == ('const', 1)
+
+    def W(t):     # mean over chains of the within-chain sample variances
+        return t[0] == 'call' and t[1] == ('global', 'numpy.mean') and len(t[2]) == 1 and \
+            is_var_axis1(t[2][0])
+
+    def b(t):     # sample variance of the chain means
+        return t[0] == 'call' and t[1] == ('global', 'numpy.var') and len(t[2]) == 1 and \
+            is_mean_axis1(t[2][0]) and kwd(t).get('ddof') == ('const', 1)
+    return W, b
+
+
+@obligation('C16-g', 'T14 T5', 'split R-hat and ESS have their textbook form over the chain '
+            'statistics', floor=5,
+            necessary='another combination of within / between variance (or a split that mixes '
+                      'chains) is a different diagnostic')
+def c16_g(ctx):
+    from .. import symdiff as sd
+    from ..ratfun import Rat, Unsupported
+    ctx.fact('BDA3 / Stan 2.14: W = mean of within-chain variances (ddof=1), B = n var(chain '
+             'means, ddof=1), var+ = ((n-1) W + B) / n, R-hat = sqrt(var+ / W) on chains split in '
+             'halves; rho_t = 1 - (W - mean_t autocov) / var+, ESS = m n / (1 + 2 sum rho_t)')
+    mm = ctx.repo.module('elfi.methods.mcmc')
+    rh = [f for f in mm.functions.values() if f.params == ['chains'] and
+          any(contains(ctx.ex(f).term(r.value), 'np.sqrt(_)') for r in returns(f))]
+    es = [f for f in mm.functions.values() if f.params == ['chains'] and
+          ctx.calls(f, 'np.fft.rfft(*_)')]
+    if len(rh) != 1 or len(es) != 1:
+        raise AnchorMissing('R-hat / ESS functions')
+    rh, es = rh[0], es[0]
+    # ---- R-hat
+    ex = ctx.ex(rh)
+    base = pattern_term('np.atleast_2d(chains)')
+    rr = returns(rh)
+    T = ex.term(rr[0].value)
+    # the split chain matrix: reshape of the first 2*(N//2) columns to (2M, N//2)
+    half = ('binop', '//', ('item', ('attr', base, 'shape'), 1), ('const', 2))
+    twice = ('binop', '*', ('item', ('attr', base, 'shape'), 0), ('const', 2))
+    splits = [s_ for s_ in subterms(T) if s_[0] == 'call' and s_[1][0] == 'attr' and
+              s_[1][2] == 'reshape']
+    ok = False
+    C = None
+    for s_ in splits:
+        shape = s_[2][0] if len(s_[2]) == 1 else ('tuple', tuple(s_[2]))
+        src_ = s_[1][1]
+        good_shape = shape == ('tuple', (twice, half))
+        m = match(src_, pattern('_c[:, :_k]'))
+        good_src = m is not None and m['c'] == base and \
+            m['k'] in (('binop', '*', ('const', 2), half), ('binop', '*', half, ('const', 2)))
+        order_c = not dict(s_[3]).get('order') or dict(s_[3]).get('order') == ('const', 'C')
+        if good_shape and good_src and order_c:
+            ok = True
+            C = s_
+    ctx.check(ok, rh, 'chains split in the middle, row-major',
+              'chains[:, :2*(N//2)].reshape((2M, N//2))',
+              'the chains are not split into consecutive halves (2M rows of N//2 samples, '
+              'row-major)', fn=rh, node=rr[0])
+    if C is None:
+        return
+    Wp, bp = _chain_atoms(C)
+    alg = sd.Algebra()
+
+    def leaf(t, C=C, Wp=Wp, bp=bp, n_t=half):
+        if t == n_t:
+            return Rat.sym('n')
+        if Wp(t):
+            return Rat.sym('W')
+        if bp(t):
+            return Rat.sym('b')
+        return None
+    n, W, b = Rat.sym('n'), Rat.sym('W'), Rat.sym('b')
+    hasW = any(Wp(s_) for s_ in subterms(T))
+    hasb = any(bp(s_) for s_ in subterms(T))
+    ctx.check(hasW and hasb, rh, 'W and var(means) are sample variances (ddof=1) along the samples',
+              'np.var(chains, ddof=1, axis=1), np.var(means, ddof=1)',
+              'R-hat does not use the mean of the ddof=1 within-chain variances and the ddof=1 '
+              'variance of the chain means (axis=1 = along the samples)', fn=rh, node=rr[0])
+    if not (hasW and hasb):
+        return
+    try:
+        got = sd.convert(T, alg, leaf)
+        want = alg.sqrt((((n - Rat.const(1)) * W + n * b) / n) / W)
+        okr = alg.same(got, want)
+    except Unsupported as e:
+        ctx.undecided('R-hat outside the fragment: {}'.format(e))
+    ctx.check(okr, rh, 'R-hat = sqrt(((n-1) W + B) / (n W)), B = n var(means)',
+              'with W and var(means) taken with ddof=1 along the samples',
+              'the statistic returned is not sqrt(var+ / W) with var+ = ((n-1) W + n var(chain '
+              'means)) / n', fn=rh, node=rr[0])
+    # ---- ESS
+    ex = ctx.ex(es)
+    Wp, bp = _chain_atoms(base)
+    n_t = ('item', ('attr', base, 'shape'), 1)
+    m_t = ('item', ('attr', base, 'shape'), 0)
+    alg = sd.Algebra()
+
+    def leaf2(t):
+        if t == n_t:
+            return Rat.sym('n')
+        if t == m_t:
+            return Rat.sym('m')
+        if Wp(t):
+            return Rat.sym('W')
+        if bp(t):
+            return Rat.sym('b')
+        if t[0] == 'call' and t[1] == ('global', 'numpy.mean') and len(t[2]) == 1 and \
+                t[2][0][0] == 'sub' and not Wp(t) and not bp(t):
+            return Rat.sym('A')          # mean over chains of the lag-t autocovariance
+        if t[0] == 'ifexp':
+            return None
+        return None
+    temps = [s_ for s_ in own_nodes(es.node) if isinstance(s_, ast.Assign) and
+             isinstance(s_.targets[0], ast.Name) and enclosing_loop(s_) is not None and
+             contains(ex.term(s_.value), 'np.var(*_)')]
+    if len(temps) != 1:
+        ctx.undecided('autocorrelation estimate not identified')
+    tt = ex.term(temps[0].value)
+    # the between-chain term is 0 for a single chain: take the multi-chain alternative
+    def multi(t):
+        if isinstance(t, tuple) and t and t[0] == 'ifexp':
+            return multi(t[3])
+        if isinstance(t, tuple):
+            return tuple(multi(c) if isinstance(c, tuple) else c for c in t)
+        return t
+    W, b, n, m_, A = (Rat.sym(x) for x in ('W', 'b', 'n', 'm', 'A'))
+    hasW = any(Wp(s_) for s_ in subterms(tt))
+    hasb = any(bp(s_) for s_ in subterms(tt))
+    ctx.check(hasW and hasb, es, 'ESS: W and var(means) are sample variances (ddof=1) along the '
+              'samples', '', 'the ESS does not use the ddof=1 within-chain variances / variance '
+              'of the chain means', fn=es, node=temps[0])
+    if not (hasW and hasb):
+        return
+    try:
+        got = sd.convert(multi(tt), alg, leaf2)
+        varp = ((n - Rat.const(1)) * W + n * b) / n
+        okt = alg.same(got, Rat.const(1) - (W - A) / varp)
+    except Unsupported as e:
+        ctx.undecided('autocorrelation estimate outside the fragment: {}'.format(e))
+    ctx.check(okt, es, 'rho_t = 1 - (W - mean autocov_t) / var+', '',
+              'the autocorrelation estimate is not 1 - (W - autocov_t) / var+', fn=es,
+              node=temps[0])
+    one_chain = [s_ for s_ in subterms(tt) if s_[0] == 'ifexp']
+    okz = bool(one_chain) and all(
+        match(s_[1], pattern('_m == 1')) is not None and s_[2] == ('const', 0)
+        for s_ in one_chain)
+    ctx.check(okz, es, 'no between-chain term for a single chain', 'B = 0 if n_chains == 1', '',
+              fn=es, node=temps[0])
+    rr = returns(es)
+    T = ex.term(rr[0].value)
+    acc = [s_ for s_ in subterms(T) if s_[0] == 'phi']
+    m2 = match(T, pattern('_m * _n / (1.0 + 2.0 * _s)'))
+    oke = m2 is not None and {m2['m'], m2['n']} == {m_t, n_t} and m2['s'][0] == 'phi'
+    ctx.check(oke, es, 'ESS = m n / (1 + 2 sum rho_t)', '',
+              'the effective sample size is not m n / (1 + 2 sum of autocorrelations)', fn=es,
+              node=rr[0])
+    # the sum runs over lags 1, 2, ... while the estimate is non-negative
+    loops = [n_ for n_ in own_nodes(es.node) if isinstance(n_, ast.While)]
+    okl = False
+    if loops:
+        lp = loops[0]
+        adds = [s_ for s_ in ast.walk(lp) if isinstance(s_, ast.AugAssign) and
+                isinstance(s_.op, ast.Add) and isinstance(s_.value, ast.Name) and
+                s_.value.id == temps[0].targets[0].id]
+        g_ok = bool(adds) and any(pol and t == ('cmp', '<=', ('const', 0), tt)
+                                  for (t, pol, _) in ctx.guards(es, adds[0]))
+        brk = any(isinstance(s_, ast.Break) for s_ in ast.walk(lp))
+        lag0 = [s_ for s_ in own_nodes(es.node) if isinstance(s_, ast.Assign) and
+                isinstance(s_.targets[0], ast.Name) and enclosing_loop(s_) is None and
+                ex.raw(s_.value) == ('const', 1) and
+                any(isinstance(x, ast.Name) and x.id == s_.targets[0].id
+                    for x in ast.walk(lp.test))]
+        okl = g_ok and brk and bool(lag0)
+    ctx.check(okl, es, 'lags 1, 2, ... summed while the estimate is non-negative', '',
+              'the autocorrelation sum does not start at lag 1 or does not stop at the first '
+              'negative estimate', fn=es, node=loops[0] if loops else es.node)
